@@ -219,7 +219,7 @@ func newLockCtx(u *Universe, thorough bool) *lockCtx {
 
 // R20.1 guarded fields are only touched while the datatype mutex is held
 func ruleR20_1(w *World, r *Report) {
-	u := w.Client()
+	u := w.uni("client") // the client library on its own: with the server loaded, its single-threaded uses of the library (the replica the snapshot manager rebuilds) would count as callers outside the lock brackets
 	r.Rule("R20.1", "the fields the datatype mutex protects (transaction state, rollback copies, push buffer, checkpoint, operation id, state) are accessed only where the mutex is held by the shape of the code: inside the BeginTransaction..EndTransaction brackets, in functions all of whose callers are there, or in constructors", 10)
 	lc := newLockCtx(u, w.Thorough)
 	type acc struct {
@@ -351,7 +351,7 @@ func ruleR20_1(w *World, r *Report) {
 
 // R20.2 every exchange with the server holds the manager's semaphore
 func ruleR20_2(w *World, r *Report) {
-	u := w.Client()
+	u := w.uni("client") // the client library on its own: with the server loaded, its single-threaded uses of the library (the replica the snapshot manager rebuilds) would count as callers outside the lock brackets
 	r.Rule("R20.2", "every path that exchanges push-pull packs with the server (sync / syncPushPullPacks) runs under the manager's semaphore, and the manager's datatype map is not accessed concurrently without it", 3)
 	v := newCGView(u, w.Thorough)
 	ex := u.Fn(pCManagers, "DatatypeManager", "syncPushPullPacks")
@@ -463,7 +463,7 @@ func ruleR20_2(w *World, r *Report) {
 
 // R20.3 acquire/release pairing
 func ruleR20_3(w *World, r *Report) {
-	u := w.Client()
+	u := w.uni("client") // the client library on its own: with the server loaded, its single-threaded uses of the library (the replica the snapshot manager rebuilds) would count as callers outside the lock brackets
 	r.Rule("R20.3", "the manager's semaphore is released by a defer placed right after a successful acquire, before the exchange, on every path (SyncAll and the realtime goroutine); the datatype mutex is locked and unlocked together with its isLocked flag", 4)
 	if fn := u.Fn(pCManagers, "DatatypeManager", "SyncAll"); fn == nil {
 		r.Lost("DatatypeManager.SyncAll")
